@@ -387,6 +387,26 @@ pub fn run_random(rec: &mut Rec, seed: u64, run: u64, nops: usize) {
                 pre = json!({});
                 out = json!({"sent": s(p.w.balance(&p.collector, &p.asset).saturating_sub(before))});
             }
+            // ------------------------------------------------------------ the three pause switches
+            40..=45 if r.gen_bool(0.4) => {
+                let sw = |r: &mut StdRng| -> Option<bool> { match r.gen_range(0..20) { 0..=7 => None, 8..=14 => Some(true), _ => Some(false) } };
+                let (d, w, l) = (sw(&mut r), sw(&mut r), sw(&mut r));
+                let by_owner = r.gen_bool(0.85);
+                let sender = if by_owner { p.w.owner.clone() } else { p.users[ui].clone() };
+                let msg = white_whale_std::vault_network::vault_factory::ExecuteMsg::UpdateVaultConfig {
+                    vault_addr: p.vault.to_string(),
+                    params: UpdateConfigParams { flash_loan_enabled: l, deposit_enabled: d, withdraw_enabled: w, new_owner: None, new_vault_fees: None, new_fee_collector_addr: None },
+                };
+                dpre = p.w.digest();
+                rs = p.w.exec(&sender, &p.factory.clone(), &msg, &[]);
+                dpost = p.w.digest();
+                name = "settog";
+                actor = if by_owner { "owner".into() } else { USERS[ui].into() };
+                let j = |x: Option<bool>| match x { None => "none", Some(true) => "on", Some(false) => "off" };
+                args = json!({"d": j(d), "w": j(w), "l": j(l)});
+                pre = json!({});
+                out = json!({});
+            }
             40..=45 => {
                 let f = match r.gen_range(0..6) {
                     0 => [ONE, 0, 0],
@@ -524,6 +544,7 @@ pub fn run_random(rec: &mut Rec, seed: u64, run: u64, nops: usize) {
         ev.insert("pre".into(), pre);
         ev.insert("res".into(), json!(rs.tag()));
         ev.insert("err".into(), jerr(&rs.err()));
+        ev.insert("disabled".into(), json!(rs.err().contains("are not enabled")));
         ev.insert("out".into(), out);
         ev.insert("dpre".into(), json!(dpre));
         ev.insert("dpost".into(), json!(dpost));
